@@ -1,7 +1,10 @@
 package gen
 
 import (
+	"go/constant"
+	"go/token"
 	"go/types"
+	"slices"
 
 	"github.com/drshriveer/gtools/gencommon"
 )
@@ -148,14 +151,22 @@ func (s TraitDescs) GetParsableTextUnmarshalable() TraitDescs {
 // defined on the line of the given enum value. Exposed for template use.
 func (s TraitDescs) ParsableValuesOf(v Value) []string {
 	out := make([]string, 0, len(s))
+	listed := make([]TraitInstance, 0, len(s))
 	for _, t := range s {
 		if !t.Parsable {
 			continue
 		}
 		for _, instance := range t.Traits {
-			if instance.OwningValue.Name == v.Name {
+			if instance.OwningValue.Name != v.Name {
+				continue
+			}
+			// A constant already listed for this value (two parsable traits with equal
+			// cells on one line) must not be repeated: the same constant twice in one
+			// `case` does not compile, and it parses to the same enum value anyway.
+			if !slices.ContainsFunc(listed, instance.sameConstant) {
 				out = append(out, instance.Value())
 			}
+			listed = append(listed, instance)
 		}
 	}
 	return out
@@ -262,7 +273,20 @@ func (s TraitInstances) Less(i, j int) bool {
 type TraitInstance struct {
 	OwningValue  Value
 	value        string
-	variableName string // optional; will be used if exists.
+	variableName string         // optional; will be used if exists.
+	constType    types.Type     // type of the trait constant on this line (nil if unknown).
+	constValue   constant.Value // its value (nil if unknown).
+}
+
+// sameConstant reports whether both instances denote the same constant: identical types
+// (after defaulting untyped constants, as a `case` of a switch on `any` does) and equal values.
+func (t TraitInstance) sameConstant(other TraitInstance) bool {
+	if t.constType == nil || other.constType == nil || t.constValue == nil || other.constValue == nil ||
+		t.constValue.Kind() != other.constValue.Kind() {
+		return false
+	}
+	return types.Identical(types.Default(t.constType), types.Default(other.constType)) &&
+		constant.Compare(t.constValue, token.EQL, other.constValue)
 }
 
 // Value safely returns a reference to a constant OR an absolute value.
